@@ -2,7 +2,7 @@
 import re
 
 from analysis import (Prov, Guards, fmt, fmt_short, walk, roots, short, comparison, find_calls, callee_matches,
-                      must_pass, named_switches, const_int_of, normalised_cmp, cmp_intervals)
+                      must_pass, named_switches, const_int_of, normalised_cmp, cmp_intervals, linear)
 from facts import AnchorError, strip_closure
 from harness import Rule, guarded
 import queryx
@@ -25,7 +25,7 @@ TRUSTED = ["BTreeMap iterates in key order; Iterator::take / filter_map"]
 
 def r1(ctx, tables):
     facts = ctx.facts
-    rule = Rule("C10.R1", "only peers that answered are returned, at most num_results", floor=7, engine="A-dom + table")
+    rule = Rule("C10.R1", "only peers that answered are returned, at most num_results", floor=9, engine="A-dom + table")
     for which in ("closest", "predicate"):
         pre = queryx.FILES[which]
         b = facts.one(re.escape(pre + "into_result"))
@@ -186,7 +186,7 @@ def r2_r3(ctx, tables):
 def r4(ctx, tables):
     facts = ctx.facts
     rule = Rule("C10.R4", "completeness shape: NotContacted never falls through; Finished only with k results, nothing in flight, or already finished",
-                floor=7, engine="A-dom + table")
+                floor=9, engine="A-dom + table")
     for which in ("closest", "predicate"):
         table, meta = tables[which]
         nc = table.get(("next", "NotContacted"), set())
@@ -219,6 +219,41 @@ def r4(ctx, tables):
                     idle.append((bi, f))
                 elif c[0] == "==":
                     idle.append((bi, tr))
+        # what the counter counts: it is advanced only for a peer in state Succeeded (a peer that timed out or failed is not a result)
+        arms = {}
+        for bi, t, e in g.switches():
+            if e[0] == "discr" and fmt_short(e[1]).endswith(".state") and any(h in body.reachable(bi) for h in m["heads"]):
+                vn, _ = g.variant_names(bi)
+                for v, tb in t.vals:
+                    arms.setdefault(vn.get(v, str(v)), []).append((bi, tb))
+        incs = []
+        for blk in body.blocks:
+            if blk.idx not in body.live_blocks():
+                continue
+            for s_ in blk.stmts:
+                # `*cnt += 1` through a reference that does not point into `self` (the local result counter)
+                if s_.k == "a" and s_.lhs.proj and s_.lhs.proj[0] == "*" and s_.lhs.local != 1:
+                    ev = prov.rvalue(s_.rv, blk.idx)
+                    target = prov.place(s_.lhs)
+                    lf = linear(ev, lambda x: "c" if x == target else None)
+                    if lf == ({"c": 1}, 1):
+                        incs.append(blk.idx)
+        succ_edges = arms.get("Succeeded", [])
+        okc = bool(incs) and bool(succ_edges)
+        if okc:
+            heads_ = list(m["heads"])
+            # which states share a target with Succeeded (`Succeeded | Unresponsive => ..` is one edge in the CFG)?
+            for st_name, edges in arms.items():
+                if st_name != "Succeeded" and any(e_ in succ_edges for e_ in edges):
+                    okc = False
+            for sw_b in set(bi for bi, _ in succ_edges):
+                # from the state switch, an increment is reachable (within the iteration) only through the Succeeded arm
+                rr = body.reachable(sw_b, removed_edges=succ_edges, removed_blocks=[h for h in heads_ if h != sw_b])
+                if any(i_ in rr for i_ in incs):
+                    okc = False
+        rule.check(okc, "[%s] the result counter is advanced only for peers in state Succeeded" % which, "%s|counter-counts-succeeded" % which,
+                   "[%s] next() advances the result counter for a peer that is not Succeeded (e.g. Unresponsive): the lookup reports Finished with fewer than k "
+                   "results while known candidates were never contacted" % which, loc=body.loc(body.line))
         already = []
         for bi, t, e in g.switches():
             if e[0] == "discr" and fmt_short(e[1]) == "self.progress":
